@@ -704,6 +704,7 @@ func r163(c *Ctx) {
 		r.Undecide("R16.3", "", "anchor MapStringsToUUIDsReadOnly", "", "not found")
 	} else {
 		ok := false
+		var other []string
 		core.Instrs(ro, func(_ *ssa.BasicBlock, _ int, ins ssa.Instruction) {
 			st, isSt := ins.(*ssa.Store)
 			if !isSt {
@@ -713,8 +714,12 @@ func r163(c *Ctx) {
 			if !isIA {
 				return
 			}
+			if _, isMk := core.ValueOrigin(ia.X).(*ssa.MakeSlice); !isMk {
+				return
+			}
 			call, isCall := st.Val.(*ssa.Call)
 			if !isCall || !core.IsCallTo(call, "NewV5") {
+				other = append(other, p.Pos(st.Pos()))
 				return
 			}
 			// the name argument is ss[idx] with the same idx
@@ -727,8 +732,12 @@ func r163(c *Ctx) {
 				}
 			}
 		})
-		r.Check(ok, "R16.3", core.FuncName(ro), "uuids[i] = NewV5(nid, ss[i])", p.Pos(ro.Pos()),
-			"result position i is derived from input position i", "the UUID stored at position i is not derived from the string at position i")
+		detail := "the UUID stored at position i is not derived from the string at position i"
+		if len(other) > 0 {
+			detail = "a result position is also written with something other than NewV5(network, name) (" + strings.Join(other, ", ") + "): two different names can then map to one id, and a name can collide with another name's id"
+		}
+		r.Check(ok && len(other) == 0, "R16.3", core.FuncName(ro), "uuids[i] = NewV5(nid, ss[i])", p.Pos(ro.Pos()),
+			"every result position i is NewV5(network, ss[i]) and nothing else", detail)
 	}
 	bf := p.Func("(*internal/persistence/sql.Persister).batchFromUUIDs")
 	if bf == nil {
@@ -981,6 +990,50 @@ func strideMatchesChunk(c *Ctx, rule string) {
 							}
 						}
 					}
+				}
+				// the loop's own bound: i < len(M) -- M must not be modified inside the loop
+				boundMut := ""
+				for _, i2 := range b.Instrs {
+					ifi, ok := i2.(*ssa.If)
+					if !ok {
+						continue
+					}
+					_, cx, cy, ok := core.BinCmp(ifi.Cond)
+					if !ok {
+						continue
+					}
+					for _, side := range []ssa.Value{cx, cy} {
+						lc, ok := side.(*ssa.Call)
+						if !ok {
+							continue
+						}
+						bi, ok := lc.Call.Value.(*ssa.Builtin)
+						if !ok || bi.Name() != "len" {
+							continue
+						}
+						m := core.ValueOrigin(lc.Call.Args[0])
+						for _, b2 := range fn.Blocks {
+							if !sameCycle(b2, b) {
+								continue
+							}
+							for _, i3 := range b2.Instrs {
+								switch y := i3.(type) {
+								case *ssa.MapUpdate:
+									if core.ValueOrigin(y.Map) == m {
+										boundMut = p.Pos(y.Pos())
+									}
+								case *ssa.Call:
+									if b3, ok := y.Call.Value.(*ssa.Builtin); ok && b3.Name() == "delete" && core.ValueOrigin(y.Call.Args[0]) == m {
+										boundMut = p.Pos(y.Pos())
+									}
+								}
+							}
+						}
+					}
+				}
+				if boundMut != "" {
+					r.Violate(rule, core.FuncName(fn), "chunk loop bound", boundMut,
+						"the collection whose length bounds the chunked loop is modified inside the loop: the bound moves while the index advances by a fixed stride, so the last chunks are never processed")
 				}
 				okB := false
 				for _, bd := range bounds {
